@@ -405,6 +405,20 @@ def judgePol (j : Json) : E String := do
             | some x => if !x.conflicted then
                 return s!"fail policy-conflict-missed {x.key} conflicts with the older {((wIn.map (·.key)).getD "?")} on a shared target but is not Conflicted"
             | none => pure ()
+  -- declarative (greedy-by-age) clause, completeness: no two SURVIVING policies of one kind that share a target
+  -- conflict - the younger one must have lost to the older survivor
+  let surv := ps.filter (fun x => x.p.valid && !x.conflicted)
+  for q in surv do
+    for x in surv do
+      if q.p.id != x.p.id && less q.p.md x.p.md && shares q.p x.p && maskConflicts q.p x.p then
+        return s!"fail policy-conflict-missed {x.key} conflicts with the older surviving {q.key} on a shared target but is not Conflicted (both are applied)"
+  -- for single-target policies the Conflicted set is exactly the greedy specification of every group
+  if ps.all (fun x => !x.p.valid || x.p.targets.length ≤ 1) then
+    let pols := ps.map (·.p)
+    let want := sortNat (((keysOf pols).map (fun k => (dropped maskConflicts [] (groupOf pols k)).map (·.id))).flatten.eraseDups)
+    let got := sortNat ((ps.filter (·.conflicted)).map (·.p.id))
+    if want != got then
+      return s!"fail policy-conflict-not-greedy Conflicted={showOutcome got} but the greedy-by-age losers are {showOutcome want}"
   return "ok"
 
 def modelPol (j : Json) : E String := do
